@@ -12,15 +12,22 @@ import sys
 PROFILES = {
     #            new set  get obs  bindI bindE reset del  move evall bev  hold  unobs  fault
     'C03': dict(new=8, set=50, get=4, obs=14, bindI=6, bindE=0, reset=1, dele=2, move=3, evall=0, bev=0, hold=0, unobs=3, fault=0, user=0),
-    'C02': dict(new=8, set=40, get=4, obs=8, bindI=18, bindE=0, reset=2, dele=1, move=8, evall=0, bev=0, hold=0, unobs=1, fault=0, user=0),
-    'C06': dict(obsreset=0.3, new=8, set=34, get=4, obs=8, bindI=2, bindE=16, reset=3, dele=2, move=2, evall=14, bev=4, hold=2, unobs=1, fault=0, user=0),
+    'C02': dict(ops=0.4, new=8, set=40, get=4, obs=8, bindI=18, bindE=0, reset=2, dele=1, move=8, evall=0, bev=0, hold=0, unobs=1, fault=0, user=0),
+    'C06': dict(ops=0.2, obsreset=0.3, new=8, set=34, get=4, obs=8, bindI=2, bindE=16, reset=3, dele=2, move=2, evall=14, bev=4, hold=2, unobs=1, fault=0, user=0),
     'C07': dict(new=6, set=30, get=6, obs=8, bindI=12, bindE=8, reset=10, dele=1, move=2, evall=6, bev=2, hold=0, unobs=1, fault=8, user=0,
                 rebind=6),
-    'C10': dict(new=8, set=24, get=4, obs=8, bindI=12, bindE=8, reset=2, dele=14, move=3, evall=6, bev=4, hold=5, unobs=2, fault=0, user=0),
-    'C11': dict(new=8, set=28, get=4, obs=10, bindI=12, bindE=4, reset=1, dele=3, move=22, evall=4, bev=2, hold=0, unobs=1, fault=0, user=0),
+    # obsreset: observers that reset() a later binding - from inside an evaluateAll pass this destroys a registered Binding while the
+    # registry is being walked (seeded change C10-5: a pass over a snapshot of the registry evaluates the destroyed Binding)
+    'C10': dict(obsreset=0.3, new=8, set=24, get=4, obs=10, bindI=10, bindE=12, reset=2, dele=14, move=3, evall=9, bev=4, hold=5, unobs=2, fault=0,
+                user=0),
+    'C11': dict(ops=0.2, new=8, set=28, get=4, obs=10, bindI=12, bindE=4, reset=1, dele=3, move=22, evall=4, bev=2, hold=0, unobs=1, fault=0, user=0),
     'C13': dict(new=6, set=40, get=10, obs=4, bindI=12, bindE=10, reset=1, dele=1, move=2, evall=12, bev=2, hold=0, unobs=0, fault=0, user=0),
     # C19: a random network, then state-restoring cycles unrolled W + K times around heapmark / heapcheck
     'C19': dict(new=8, set=12, get=2, obs=8, bindI=14, bindE=8, reset=2, dele=2, move=6, evall=4, bev=3, hold=1, unobs=1, fault=0, user=0, cycle=7),
+    # general mix: every family at once (run as a share of every property-layer check, so that a change that breaks property X
+    # through a mechanism only the profile of property Y exercises still breaks the correspondence of X's check)
+    'all': dict(ops=0.25, obsreset=0.15, new=7, set=30, get=4, obs=9, bindI=12, bindE=10, reset=4, dele=6, move=7, evall=8, bev=3, hold=2, unobs=2,
+                fault=3, user=1, rebind=2),
     'C16': dict(new=6, set=34, get=4, obs=8, bindI=12, bindE=6, reset=6, dele=8, move=2, evall=6, bev=2, hold=2, unobs=1, fault=6, user=1),
 }
 
@@ -60,6 +67,9 @@ class Gen:
 
     def fn(self, arity):
         r = self.r
+        if self.p.get('ops') and arity < 3 and r.random() < self.p['ops']:
+            # the library's own operator overloads / declared functions (the harness selects the overload by the operand kinds)
+            return r.choice([110, 111, 112, 113]) if arity == 1 else r.choice([100, 101, 102, 103, 104, 100, 101])
         f = r.randrange(0, 20)
         if self.p['user'] and r.random() < 0.25:
             f = 50 + r.randrange(0, 10)
